@@ -321,6 +321,7 @@ func (a *adapter) initSchema() {
 // begin locks the adapter, records the call and applies the fault plan. If it
 // returns an error the adapter is NOT locked and the call must return at once.
 func (a *adapter) begin(name string) error {
+	runHook(name) // zz_hook.go: harness callback, no-op unless a driver installed one
 	a.mu.Lock()
 	fail := false
 	if a.crashed {
